@@ -1,24 +1,39 @@
 #!/venv/bin/python
-"""Sensitivity helper: apply a textual mutation to /repo, run a command, revert.
+"""Sensitivity helper: run a command against a MUTATED SCRATCH COPY of /repo (never touches /repo).
 
 usage: tools/mut.py <repo-relative file> <old> <new> -- <command...>
-The file must be clean in git; it is restored with `git checkout` afterwards (also on error).
+       tools/mut.py --patch <file.diff> -- <command...>
+The copy lives under /tmp/nifty_mut_<pid>, shadows the editable install through VERIF_REPO
+(see ./check) and is removed afterwards.  Evidence and replay files of the run go to the scratch
+directory too, so /verif/evidence is not overwritten by a mutant run.
 """
+import os
+import shutil
 import subprocess
 import sys
 
 i = sys.argv.index("--")
-f, old, new = sys.argv[1:4]
 cmd = sys.argv[i + 1:]
-path = "/repo/" + f
-if subprocess.run(["git", "-C", "/repo", "diff", "--quiet", "--", f]).returncode != 0:
-    sys.exit("file has uncommitted changes: " + f)
-s = open(path).read()
-if s.count(old) < 1:
-    sys.exit("pattern not found")
-open(path, "w").write(s.replace(old, new, 1))
+scratch = f"/tmp/nifty_mut_{os.getpid()}"
+shutil.rmtree(scratch, ignore_errors=True)
+os.makedirs(scratch)
+subprocess.run(["git", "-C", "/repo", "worktree", "prune"], check=False)
+# copy the working tree's package (tracked state + local edits), not the git metadata
+shutil.copytree("/repo/nifty", scratch + "/nifty")
 try:
-    rc = subprocess.run(cmd).returncode
+    if sys.argv[1] == "--patch":
+        subprocess.run(["patch", "-p1", "-d", scratch, "-i", os.path.abspath(sys.argv[2])], check=True,
+                       stdout=subprocess.DEVNULL)
+    else:
+        f, old, new = sys.argv[1:4]
+        path = os.path.join(scratch, f)
+        s = open(path).read()
+        if s.count(old) < 1:
+            sys.exit("pattern not found")
+        open(path, "w").write(s.replace(old, new, 1))
+    env = dict(os.environ, VERIF_REPO=scratch, VERIF_EVIDENCE_DIR=scratch + "/evidence",
+               VERIF_REPLAY_DIR=scratch + "/replays")
+    rc = subprocess.run(cmd, env=env).returncode
 finally:
-    subprocess.run(["git", "-C", "/repo", "checkout", "--", f], check=True)
+    shutil.rmtree(scratch, ignore_errors=True)
 print("mutant exit code:", rc)
